@@ -1,0 +1,104 @@
+//! Verification seam. Compiled only with `--cfg graaf_verif`; the shipped
+//! crate never contains this module.
+//!
+//! The multi-threaded operations of [`AdjacencyList`](crate::AdjacencyList)
+//! and [`AdjacencyMap`](crate::AdjacencyMap) import the names below at
+//! function scope when the guard is on. That puts every source of
+//! nondeterminism these operations touch behind one seam:
+//!
+//! * [`available_parallelism`] answers what the simulator configured for the
+//!   calling OS thread (a CPU count, or an error), and falls back to `std`
+//!   when nothing was configured.
+//! * [`spawn`], [`scope`], [`Mutex`], [`AtomicBool`] are `shuttle`'s with
+//!   `--cfg graaf_verif_shuttle` (a scheduler the simulator owns decides every
+//!   interleaving) and `std`'s otherwise (Miri decides them).
+
+#![allow(missing_docs, clippy::missing_errors_doc)]
+
+use std::{
+    cell::Cell,
+    io,
+    num::NonZero,
+};
+
+#[cfg(graaf_verif_shuttle)]
+pub use shuttle::{
+    sync::{
+        atomic::{
+            self,
+            AtomicBool,
+        },
+        Mutex,
+    },
+    thread::{
+        scope,
+        spawn,
+    },
+};
+
+#[cfg(not(graaf_verif_shuttle))]
+pub use std::{
+    sync::{
+        atomic::{
+            self,
+            AtomicBool,
+        },
+        Mutex,
+    },
+    thread::{
+        scope,
+        spawn,
+    },
+};
+
+/// Stand-in for `std::thread`, for call sites written `thread::spawn`.
+pub mod thread {
+    pub use super::{
+        available_parallelism,
+        scope,
+        spawn,
+    };
+}
+
+/// What [`available_parallelism`] answers on the calling OS thread.
+#[derive(Clone, Copy, Debug, Eq, PartialEq)]
+pub enum Parallelism {
+    /// Ask `std::thread::available_parallelism`.
+    Std,
+    /// Answer `Ok(n)`.
+    Count(NonZero<usize>),
+    /// Answer `Err`: the operating system query failed.
+    Unsupported,
+}
+
+thread_local! {
+    static PARALLELISM: Cell<Parallelism> = const { Cell::new(Parallelism::Std) };
+    static QUERIES: Cell<u64> = const { Cell::new(0) };
+}
+
+/// Configure [`available_parallelism`] for the calling OS thread and return
+/// the previous setting.
+pub fn set_parallelism(p: Parallelism) -> Parallelism {
+    PARALLELISM.with(|c| c.replace(p))
+}
+
+/// The number of [`available_parallelism`] calls made on the calling OS
+/// thread so far.
+#[must_use]
+pub fn parallelism_queries() -> u64 {
+    QUERIES.with(Cell::get)
+}
+
+/// Seam for `std::thread::available_parallelism`.
+pub fn available_parallelism() -> io::Result<NonZero<usize>> {
+    QUERIES.with(|c| c.set(c.get() + 1));
+
+    match PARALLELISM.with(Cell::get) {
+        Parallelism::Std => std::thread::available_parallelism(),
+        Parallelism::Count(n) => Ok(n),
+        Parallelism::Unsupported => Err(io::Error::new(
+            io::ErrorKind::Unsupported,
+            "graaf_verif: available_parallelism configured to fail",
+        )),
+    }
+}
